@@ -151,6 +151,27 @@ def build_cases(seed, quick=True):
             for v in variants:
                 k += 1
                 cases.append(('p%d' % k, base + v, 6))
+    # ---- Joliet directories: the same witnesses, record length = 34 + 2 * (UCS-2 characters) ------
+    def jname(grp, L, i):
+        nid = 'J%s%d_%d' % (grp, L, i)
+        if nid not in names:
+            n = (L - 34) // 2
+            base = '%s%03d' % (grp.lower(), i)
+            jol = (base + '\u00e9' * n)[:n]          # non-ASCII filler: UTF-8 and UCS-2 lengths differ
+            names[nid] = {'iso': nid + '.;1', 'rr': nid.lower(), 'jol': jol, 'udf': nid.lower()}
+        return nid
+    for w in chosen[:(6 if quick else len(chosen))]:
+        if (w['l1'] - 34) // 2 < 5 or (w['l2'] - 34) // 2 < 5 or max(w['l1'], w['l2']) - 34 > 64:
+            continue
+        cfg = {'level': 3, 'joliet': 3, 'rr': '', 'udf': False, 'xa': False}
+        order = [jname('A', w['l1'], i) for i in range(w['n1'])] + [jname('B', w['l2'], i) for i in range(w['n2'])]
+        base = [{'a': 'New', 'cfg': cfg, 'mode': 'lazy'}]
+        adds = [{'a': 'AddFp', 'blob': 's', 'iso': ['-'], 'jol': [n], 'udf': ['-']} for n in order]
+        extra_j = jname('C', 60, 0)
+        for v in (adds, adds + [{'a': 'AddFp', 'blob': 's', 'iso': ['-'], 'jol': [extra_j], 'udf': ['-']}],
+                  adds + [{'a': 'RmHardLink', 'ns': 'jol', 'p': [order[-1]]}]):
+            k += 1
+            cases.append(('p%d' % k, base + v, 6))
     # ---- path tables -------------------------------------------------------------------
     wits, st = witnesses('ptable', [14, 16, 18, 20], 300, 1, 10, 4096)
     stats.append(st)
